@@ -4,6 +4,7 @@ import (
 	"bytes"
 	"fmt"
 	"go/ast"
+	"go/constant"
 	"go/printer"
 	"go/token"
 	"sort"
@@ -185,12 +186,12 @@ func emitShape(pk map[string]*pkgInfo) string {
 		facts = append(facts, f)
 	}
 
-	facts = append(facts, shapeC08(pk)...) // C08/C13 pool life cycles (tools/l4gen/access_c08.go)
-	facts = append(facts, shapeUDP(l4)...) // C09 (appended at the end of this file)
+	facts = append(facts, shapeC08(pk)...)         // C08/C13 pool life cycles (tools/l4gen/access_c08.go)
+	facts = append(facts, shapeUDP(l4)...)         // C09 (appended at the end of this file)
 	facts = append(facts, shapeRelayHealth(pk)...) // C03/C11 (appended at the end of this file)
-	facts = append(facts, shapeMSmall(pk)...) // C04/C06/C14 small matchers (shape_msmall.go)
-	facts = append(facts, shapeC12(pk)...) // C12 (tools/l4gen/shape_c12.go)
-	facts = append(facts, shapeMDns(pk)...) // C14/C04 DNS size bounds (tools/l4gen/shape_mdns.go)
+	facts = append(facts, shapeMSmall(pk)...)      // C04/C06/C14 small matchers (shape_msmall.go)
+	facts = append(facts, shapeC12(pk)...)         // C12 (tools/l4gen/shape_c12.go)
+	facts = append(facts, shapeMDns(pk)...)        // C14/C04 DNS size bounds (tools/l4gen/shape_mdns.go)
 	sort.Slice(facts, func(i, j int) bool { return facts[i].name < facts[j].name })
 	var b bytes.Buffer
 	b.WriteString("(* GENERATED by tools/l4gen from /repo's working tree. Do not edit. *)\n")
@@ -407,13 +408,14 @@ func emitAccess(pk map[string]*pkgInfo) string {
 //
 // (appended by the C02/C05 builder) Facts about the handler function literal returned by
 // RouteList.Compile:
-//   layer4_compile_arms_at_loop_label    the statement labelled `loop:` is the assignment from
-//                                        cx.Conn.SetReadDeadline(deadline) and no other call arms it
-//   layer4_compile_clears_on_match       the `if matched {` block calls SetReadDeadline(time.Time{})
-//                                        before handler.Handle
-//   layer4_compile_clears_before_fallback the final fallback exit clears the deadline
-//   layer4_compile_last_exit_clears_deadline  the `lastMatchedRouteIdx == len(routes)-1` exit
-//                                        clears the deadline (when nothing matched) before next.Handle
+//
+//	layer4_compile_arms_at_loop_label    the statement labelled `loop:` is the assignment from
+//	                                     cx.Conn.SetReadDeadline(deadline) and no other call arms it
+//	layer4_compile_clears_on_match       the `if matched {` block calls SetReadDeadline(time.Time{})
+//	                                     before handler.Handle
+//	layer4_compile_clears_before_fallback the final fallback exit clears the deadline
+//	layer4_compile_last_exit_clears_deadline  the `lastMatchedRouteIdx == len(routes)-1` exit
+//	                                     clears the deadline (when nothing matched) before next.Handle
 func shapeC05(l4 *pkgInfo) []fact {
 	b2s := func(b bool) string {
 		if b {
@@ -529,10 +531,10 @@ func shapeUDP(l4 *pkgInfo) []fact {
 		if len(ce.Args) < 2 {
 			return 0, true
 		}
-		if bl, ok := ce.Args[1].(*ast.BasicLit); ok {
-			var n int
-			if _, err := fmt.Sscan(bl.Value, &n); err == nil {
-				return n, true
+		// a literal or any constant expression over the package's constants (a named capacity)
+		if v, ok := l4.eval(ce.Args[1], 0); ok {
+			if n, exact := constant.Int64Val(constant.ToInt(v)); exact {
+				return int(n), true
 			}
 		}
 		return -1, true
